@@ -1275,6 +1275,13 @@ func genWorkload(seed uint64, deep bool) *Workload {
 	// "chain" workloads: every value of a type with a google.protobuf.Any field carries a chain of
 	// nested anys, so that several tasks are inside re-entrant codec calls at the same time
 	chains := len(pool) == 1 && pool[0].Name == "test.schema.v1.FullSchema" && rng.Bool(0.5)
+	// malformed inputs come in families: half of a workload's malformed inputs are of one kind, and
+	// one workload in seven is an "error storm" where most decode-type inputs are malformed
+	favMutate := []int{1, 2, 3, 4, 5, 6, 6, 7, 8, 9}[rng.Intn(10)]
+	mutateProb := 0.2
+	if rng.Bool(0.15) {
+		mutateProb = 0.7
+	}
 	mkOp := func() OpSpec {
 		ti := pool[rng.Intn(len(pool))]
 		op := OpSpec{Kind: opKinds[rng.Intn(len(opKinds))], Type: ti.key(), ValSeed: rng.Uint64()}
@@ -1284,8 +1291,11 @@ func genWorkload(seed uint64, deep bool) *Workload {
 				op.Kind = []string{"encode", "encode_any", "walk"}[rng.Intn(3)]
 			}
 		}
-		if (op.Kind == "decode" || op.Kind == "query" || op.Kind == "decode_any") && rng.Bool(0.2) {
+		if (op.Kind == "decode" || op.Kind == "query" || op.Kind == "decode_any") && rng.Bool(mutateProb) {
 			op.Mutate = []int{1, 2, 3, 4, 5, 5, 5, 6, 6, 7, 8, 9}[rng.Intn(12)] // (usually) failing operation by construction; 7..9 are seeded tree mutations
+			if rng.Bool(0.5) {
+				op.Mutate = favMutate // several tasks on the same unusual input path at once
+			}
 		}
 		if (op.Kind == "encode" || op.Kind == "encode_any" || op.Kind == "walk") && rng.Bool(0.12) {
 			op.Poison = 1 + rng.Intn(2) // failing encode: fails after part of the output was written
